@@ -79,6 +79,7 @@ class Opts:
         self.strain_bias = 0.0        # probability of choosing a strain stratification whenever one is still possible
         self.shuffle_strat_comps_bias = 0.0  # probability that a stratification lists its compartments in another order than the model does
         self.zero_adjust_bias = 0.0   # probability that a Multiply adjustment is the literal 0 (a stratum that receives / passes nothing)
+        self.split_bias = 0.0          # lower bound on the probability that a stratification carries a population split
         self.inexact_split_bias = 0.0  # probability that a literal split sums to one only within the API's tolerance (0.01), or that a split of two independent parameters is used (not checked by the API)
         self.shuffle_split_bias = 0.0  # probability that the population split is declared in another order than the strata
         self.chain_adjust_bias = 0.0  # probability that a later stratification re-adjusts a flow an earlier stratification already adjusted (Multiply / Overwrite chains across stratifications)
@@ -442,7 +443,7 @@ class Gen:
         op = {"op": "stratify", "kind": kind, "name": name, "strata": strata, "comps": comps}
         strata_final = sorted(strata, key=int) if kind == "age" else strata
         n = len(strata_final)
-        if o.allow_split and r.random() < 0.6:
+        if o.allow_split and r.random() < max(0.6, o.split_bias):
             if o.allow_param_split and o.allow_params and n == 2 and r.random() < 0.4:
                 p = self.new_param(SPLIT_PARAM_POOL)
                 op["split"] = [[strata_final[0], P(p)], [strata_final[1], {"-": [C(1), P(p)]}]]
